@@ -6,6 +6,7 @@
 package netrig
 
 import (
+	"bytes"
 	"context"
 	"encoding/json"
 	"fmt"
@@ -15,9 +16,12 @@ import (
 	"strings"
 
 	pubsub "github.com/libp2p/go-libp2p-pubsub"
+	"google.golang.org/protobuf/proto"
 
 	"github.com/shutter-network/shutter/shlib/shcrypto"
 
+	obskeyperdatabase "github.com/shutter-network/rolling-shutter/rolling-shutter/chainobserver/db/keyper"
+	"github.com/shutter-network/rolling-shutter/rolling-shutter/keyperimpl/gnosis"
 	"github.com/shutter-network/rolling-shutter/rolling-shutter/p2pmsg"
 
 	"verif/harness/eonkeys"
@@ -82,8 +86,12 @@ type world struct {
 	initial      []*kdb.DB
 	an           *noderig.AccessNode
 	anDeliveries int
-	ids          [][]byte
-	coeffs       string
+	// what the access node's chain sync has delivered so far, for the model: events and the sets / keys by id
+	anEvents []string
+	anSets   []*obskeyperdatabase.KeyperSet
+	anKeys   []*shcrypto.EonPublicKey
+	ids      [][]byte
+	coeffs   string
 }
 
 func newWorld(ctx context.Context, rnd *hx.Rand, fl noderig.Flavour, n, t, nids int) (*world, error) {
@@ -113,6 +121,9 @@ func newWorld(ctx context.Context, rnd *hx.Rand, fl noderig.Flavour, n, t, nids 
 			return nil, err
 		}
 		w.an = an
+		w.anSets = []*obskeyperdatabase.KeyperSet{noderig.FixtureSet(w.fx)}
+		w.anKeys = []*shcrypto.EonPublicKey{noderig.FixtureKey(w.fx)}
+		w.anEvents = []string{fmt.Sprintf("s%d:0", w.fx.ConfigIndex), fmt.Sprintf("k%d:0", w.fx.ConfigIndex)}
 	}
 	cs := []string{}
 	for _, c := range w.fx.Keys.Coeffs {
@@ -274,14 +285,17 @@ func (r *runner) run(ctx context.Context, w *world, p plan, pick func(n int) int
 				w.anDeliveries++
 				switch w.anDeliveries % 7 {
 				case 2:
-					_ = w.an.AnnounceOther(w.fx, w.fx.ConfigIndex+1, w.fx.ActivationBlock+1000, false)
+					w.announce(w.fx.ConfigIndex+1, w.fx.ActivationBlock+1000, false)
 					schedule = append(schedule, "accessnode: successor keyper set announced")
 				case 4:
-					_ = w.an.AnnounceOther(w.fx, w.fx.ConfigIndex+1, w.fx.ActivationBlock+1000, true)
+					w.announce(w.fx.ConfigIndex+1, w.fx.ActivationBlock+1000, true)
 					schedule = append(schedule, "accessnode: successor keyper set and eon key announced")
 				case 6:
-					_ = w.an.AnnounceOther(w.fx, w.fx.ConfigIndex-1, 0, true)
+					w.announce(w.fx.ConfigIndex-1, 0, true)
 					schedule = append(schedule, "accessnode: preceding keyper set and eon key synced")
+				}
+				if km, ok := d.msg.(*p2pmsg.DecryptionKeys); ok && rep == 0 {
+					r.accessNodeLines(ctx, w, km)
 				}
 				res := w.an.DeliverMsg(ctx, d.msg)
 				schedule = append(schedule, fmt.Sprintf("accessnode<-keys(%d)", d.from))
@@ -469,7 +483,7 @@ func Run(cfg Config) (int, error) {
 			res.Traces++
 			parts := strings.SplitN(it.impl, "|", 2)
 			want := model[i]
-			if parts[0] != "core" { // the flavours with signature collection emit keys later; compare the tables only
+			if parts[0] != "core" && parts[0] != "accessnode" { // the flavours with signature collection emit keys later; compare the tables only
 				want = strings.Join(strings.Fields(want)[:2], " ")
 			}
 			if want != parts[1] {
@@ -536,4 +550,82 @@ func (r *runner) exhaustive(ctx context.Context, w *world) {
 	if complete {
 		r.res.Count(w.fl.String() + ":exhaustive-complete")
 	}
+}
+
+// announce lets the access node's chain sync deliver another configuration and records it for the model.
+func (w *world) announce(index, activation uint64, withKey bool) {
+	set, key, err := w.an.AnnounceOther(w.fx, index, activation, withKey)
+	if err != nil {
+		panic(err)
+	}
+	w.anSets = append(w.anSets, set)
+	w.anEvents = append(w.anEvents, fmt.Sprintf("s%d:%d", index, len(w.anSets)-1))
+	if key != nil {
+		w.anKeys = append(w.anKeys, key)
+		w.anEvents = append(w.anEvents, fmt.Sprintf("k%d:%d", index, len(w.anKeys)-1))
+	}
+}
+
+// accessNodeLines compares the access node with its model (Model/AccessNode.lean) on the keys message and on
+// copies of it that name another eon or instance. What the message is worth under each eon key and keyper set the
+// sync has delivered is computed here with the real checks; the model combines that with its store.
+func (r *runner) accessNodeLines(ctx context.Context, w *world, km *p2pmsg.DecryptionKeys) {
+	probes := []*p2pmsg.DecryptionKeys{}
+	for _, eon := range []uint64{km.Eon, km.Eon + 1, km.Eon - 1, km.Eon + 7} {
+		c := proto.Clone(km).(*p2pmsg.DecryptionKeys)
+		c.Eon = eon
+		probes = append(probes, c)
+	}
+	c := proto.Clone(km).(*p2pmsg.DecryptionKeys)
+	c.InstanceId++
+	probes = append(probes, c)
+	for _, m := range probes {
+		res, _ := gnosis.ValidateDecryptionKeysBasic(m)
+		basic := res == pubsub.ValidationAccept
+		kt, st := []string{}, []string{}
+		for id, key := range w.anKeys {
+			ok := true
+			for i, k := range m.Keys {
+				sk, err := k.GetEpochSecretKey()
+				if err != nil {
+					ok = false
+					break
+				}
+				if v, err := shcrypto.VerifyEpochSecretKey(sk, key, k.IdentityPreimage); err != nil || !v {
+					ok = false
+					break
+				}
+				if i > 0 && bytes.Compare(k.IdentityPreimage, m.Keys[i-1].IdentityPreimage) < 0 {
+					ok = false
+					break
+				}
+			}
+			kt = append(kt, fmt.Sprintf("%d:%s", id, b01(ok)))
+		}
+		for id, set := range w.anSets {
+			ok := false
+			if basic {
+				res, _ := gnosis.ValidateDecryptionKeysSignatures(m, m.Extra.(*p2pmsg.DecryptionKeys_Gnosis).Gnosis, set)
+				ok = res == pubsub.ValidationAccept
+			}
+			st = append(st, fmt.Sprintf("%d:%s", id, b01(ok)))
+		}
+		line := fmt.Sprintf("AN %d 500 %s %d %d %d %s %s %s", w.fx.InstanceID, strings.Join(w.anEvents, ","), m.InstanceId, m.Eon,
+			len(m.Keys), b01(basic), strings.Join(kt, ","), strings.Join(st, ","))
+		d := w.an.DeliverMsg(ctx, m)
+		impl := "reject"
+		if d.Validation == pubsub.ValidationAccept && d.Panic == "" {
+			impl = "accept"
+		}
+		r.res.Count("accessnode-model:" + impl)
+		r.items = append(r.items, item{line, "accessnode|" + impl})
+		r.res.Distinct("accessnode " + line)
+	}
+}
+
+func b01(b bool) string {
+	if b {
+		return "1"
+	}
+	return "0"
 }
